@@ -140,6 +140,12 @@ pub trait Space: Sync {
     fn run_unit(&self, u: u64, only: Option<u64>, skip: &BTreeSet<u64>, acc: &mut Acc);
     /// Describe a case that killed the process: (violation key, description, replay detail).
     fn describe_fatal(&self, u: u64, c: u64, aux: u64, how: &str) -> (String, String, Value);
+    /// Wall-clock budget of one unit in seconds (SIGALRM; a unit that exceeds it is reported as
+    /// "no verdict: time cap" for the running case, never as a violation). Spaces may re-arm
+    /// the alarm per case themselves.
+    fn unit_time_cap_s(&self) -> u32 {
+        60
+    }
     /// Timeout for one child over its whole shard.
     fn child_timeout(&self) -> Duration {
         Duration::from_secs(3600)
@@ -208,7 +214,7 @@ pub fn install_fatal_handlers() {
         let stack = Box::leak(vec![0u8; sz].into_boxed_slice());
         let ss = libc::stack_t { ss_sp: stack.as_mut_ptr() as *mut libc::c_void, ss_flags: 0, ss_size: sz };
         libc::sigaltstack(&ss, std::ptr::null_mut());
-        for sig in [libc::SIGSEGV, libc::SIGBUS, libc::SIGABRT, libc::SIGILL, libc::SIGFPE] {
+        for sig in [libc::SIGSEGV, libc::SIGBUS, libc::SIGABRT, libc::SIGILL, libc::SIGFPE, libc::SIGALRM] {
             let mut sa: libc::sigaction = std::mem::zeroed();
             sa.sa_sigaction = fatal_handler as usize;
             sa.sa_flags = libc::SA_ONSTACK | libc::SA_NODEFER;
@@ -236,6 +242,14 @@ pub fn child_main(space: &dyn Space, args: &Args) -> ! {
     }
     mcx::quiet_panics();
     install_fatal_handlers();
+    // Keep freed memory in the process: the subjects allocate and free large buffers per case
+    // and glibc would otherwise mmap/munmap (and page-fault) them every time.
+    // SAFETY: mallopt only tunes the allocator.
+    unsafe {
+        libc::mallopt(libc::M_MMAP_THRESHOLD, 1 << 25);
+        libc::mallopt(libc::M_TRIM_THRESHOLD, 1 << 29);
+        libc::mallopt(libc::M_TOP_PAD, 1 << 24);
+    }
     if let (Some(u), Some(c)) = (get("only-unit"), get("only-case")) {
         // replay of one recorded case
         CUR_UNIT.store(u, Ordering::Relaxed);
@@ -253,7 +267,11 @@ pub fn child_main(space: &dyn Space, args: &Args) -> ! {
     while u < total {
         CUR_UNIT.store(u, Ordering::Relaxed);
         CUR_CASE.store(u64::MAX, Ordering::Relaxed);
+        // SAFETY: plain syscall.
+        unsafe { libc::alarm(space.unit_time_cap_s()) };
         space.run_unit(u, None, skip.get(&u).unwrap_or(&empty), &mut acc);
+        // SAFETY: plain syscall.
+        unsafe { libc::alarm(0) };
         if last_flush.elapsed() > Duration::from_millis(200) {
             println!("P {} {}", u, acc.to_json());
             acc = Acc::default();
@@ -318,11 +336,15 @@ pub fn run_child(args: &[String], timeout: Duration) -> mcx::child::ChildOutcome
 /// Enumerate `space` completely in `nshards` child processes. Returns the merged accumulator
 /// and whether the enumeration was complete.
 pub fn run_space(space: &dyn Space, args: &Args, nshards: u64) -> (Acc, bool) {
+    run_spaces(&[space], args, nshards).pop().unwrap()
+}
+
+/// One shard of one space: spawn the child, resume it behind every fatal / time-capped case.
+fn run_shard(space: &dyn Space, args: &Args, nshards: u64, shard: u64) -> (Acc, bool, f64) {
     const MAX_RESTARTS: u32 = 400;
     let total = space.units();
-    let results: Vec<(Acc, bool)> = (0..nshards.min(total.max(1)))
-        .into_par_iter()
-        .map(|shard| {
+    let t0 = std::time::Instant::now();
+    let (acc, complete) = (|| {
             let mut acc = Acc::default();
             let mut from = shard;
             let mut skip: Vec<(u64, u64)> = Vec::new();
@@ -378,6 +400,14 @@ pub fn run_space(space: &dyn Space, args: &Args, nshards: u64) -> (Acc, bool) {
                 }
                 // the child died: find out on which case
                 match parse_fatal(&out.stderr) {
+                    Some((sig, u, c, aux)) if sig == libc::SIGALRM as u64 && u != u64::MAX && c != u64::MAX => {
+                        // time cap: no verdict for this case
+                        let (_, desc, _) = space.describe_fatal(u, c, aux, "time cap");
+                        acc.count("time_capped_cases", 1);
+                        acc.note("time cap reached (no verdict)", || desc.clone());
+                        acc.count(&format!("tally:time_capped unit {u} case {c}"), 1);
+                        skip.push((u, c));
+                    }
                     Some((sig, u, c, aux)) if u != u64::MAX && c != u64::MAX => {
                         let how = format!("signal {sig}");
                         let (key, desc, replay) = space.describe_fatal(u, c, aux, &how);
@@ -407,15 +437,38 @@ pub fn run_space(space: &dyn Space, args: &Args, nshards: u64) -> (Acc, bool) {
                     return (acc, false);
                 }
             }
+    })();
+    (acc, complete, t0.elapsed().as_secs_f64())
+}
+
+/// Enumerate several spaces completely, all shards of all spaces sharing one worker pool (no
+/// barrier between spaces). Returns per space the merged accumulator, completeness, and puts
+/// the summed child wall time into the counter `child_wall_ms`.
+pub fn run_spaces(spaces: &[&dyn Space], args: &Args, nshards: u64) -> Vec<(Acc, bool)> {
+    let mut jobs: Vec<(usize, u64)> = Vec::new();
+    // interleave spaces so that heavy spaces do not queue behind each other
+    let per: Vec<u64> = spaces.iter().map(|s| nshards.min(s.units().max(1))).collect();
+    for shard in 0..nshards {
+        for (si, n) in per.iter().enumerate() {
+            if shard < *n {
+                jobs.push((si, shard));
+            }
+        }
+    }
+    let results: Vec<(usize, Acc, bool, f64)> = jobs
+        .into_par_iter()
+        .map(|(si, shard)| {
+            let (a, c, t) = run_shard(spaces[si], args, per[si], shard);
+            (si, a, c, t)
         })
         .collect();
-    let mut acc = Acc::default();
-    let mut complete = true;
-    for (a, c) in results {
-        acc.absorb(a);
-        complete &= c;
+    let mut out: Vec<(Acc, bool)> = spaces.iter().map(|_| (Acc::default(), true)).collect();
+    for (si, a, c, t) in results {
+        out[si].0.absorb(a);
+        out[si].1 &= c;
+        out[si].0.count("child_wall_ms", (t * 1000.0) as u64);
     }
-    (acc, complete)
+    out
 }
 
 /// Fold a space's accumulator into the report (prefixing counters with the space name where
@@ -428,7 +481,9 @@ pub fn fold(rep: &mut Report, space: &str, acc: Acc) {
             tallies.insert(t.to_string(), json!(cur + *v));
             continue;
         }
-        rep.count(k, *v);
+        if k != "child_wall_ms" {
+            rep.count(k, *v);
+        }
         rep.count(&format!("{space}.{k}"), *v);
     }
     if !tallies.is_empty() {
